@@ -19,7 +19,7 @@ def kernel_order(d, s, dde_approx=0):
 def gen_pair(rng):
     """(d, s) with (d/s)^2 in [1, 12.4], including the .5 rounding boundaries"""
     # delays incl. values whose rate n/d and whose ratio d/dt are not short decimal fractions
-    d = rng.choice([0.02, 0.05, 0.1, 0.25, 0.4, 0.012, 0.007, 0.03, 0.0123456, 0.0471])
+    d = rng.choice([0.02, 0.05, 0.1, 0.25, 0.4, 0.012, 0.007, 0.03, 0.0123456, 0.0471, 2.0, 3.0, 4.0, 5.0])
     kind = rng.random()
     if kind < 0.25:
         q = rng.choice([1.5, 2.5, 3.5, 5.5]) + rng.choice([-1e-6, 1e-6, -0.01, 0.01])
@@ -127,6 +127,10 @@ class C11(Check):
                     c['delay'] = None
             return {'spec': spec, 'cfg': cfg}
         pairs = [gen_pair(rng) for _ in range(3)]
+        if rng.random() < 0.2:
+            # slow kernels of ONE order whose rates n/d lie close together (0.6, 0.75, 1.0, ...): edges must keep their own
+            q = rng.choice([2.0, 3.0, 4.0]) + rng.choice([-0.2, 0.0, 0.2])
+            pairs = [(d_, d_ / math.sqrt(q)) for d_ in rng.sample([2.0, 3.0, 4.0, 5.0, 6.0], 3)]
 
         def delays(r):
             if r.random() < 0.65:
